@@ -447,8 +447,6 @@ class io_uring_context::read_sender {
 
     void start_io() noexcept {
       UNIFEX_ASSERT(context_.is_running_on_io_thread());
-      stopCallback_.construct(
-          get_stop_token(receiver_), cancel_callback{*this});
       auto populateSqe = [this](io_uring_sqe& sqe) noexcept {
         sqe.opcode = IORING_OP_READV;
         sqe.fd = fd_;
@@ -464,7 +462,12 @@ class io_uring_context::read_sender {
       if (!context_.try_submit_io(populateSqe)) {
         this->execute_ = &operation::on_schedule_complete;
         context_.schedule_pending_io(this);
+        return;
       }
+      // Install the stop callback after the I/O has been submitted so that a
+      // cancellation (possibly already pending) is queued behind it.
+      stopCallback_.construct(
+          get_stop_token(receiver_), cancel_callback{*this});
     }
 
     void request_stop() noexcept {
@@ -648,8 +651,6 @@ class io_uring_context::write_sender {
 
     void start_io() noexcept {
       UNIFEX_ASSERT(context_.is_running_on_io_thread());
-      stopCallback_.construct(
-          get_stop_token(receiver_), cancel_callback{*this});
       auto populateSqe = [this](io_uring_sqe& sqe) noexcept {
         sqe.opcode = IORING_OP_WRITEV;
         sqe.fd = fd_;
@@ -665,7 +666,12 @@ class io_uring_context::write_sender {
       if (!context_.try_submit_io(populateSqe)) {
         this->execute_ = &operation::on_schedule_complete;
         context_.schedule_pending_io(this);
+        return;
       }
+      // Install the stop callback after the I/O has been submitted so that a
+      // cancellation (possibly already pending) is queued behind it.
+      stopCallback_.construct(
+          get_stop_token(receiver_), cancel_callback{*this});
     }
 
     void request_stop() noexcept {
